@@ -12,6 +12,7 @@ os.environ["VERIF_TIER"] = tier
 cfg = json.load(open("/verif/props.json"))[prop]
 t0 = time.time()
 runs, viol = [], 0
+undecided = False
 for b in cfg.get("bounded", []):
     p = subprocess.run(["bash", "-c", b["cmd"]], cwd="/verif", capture_output=True, text=True)
     last = {}
@@ -24,6 +25,11 @@ for b in cfg.get("bounded", []):
     last["cmd"] = b["cmd"]
     last["label"] = "bounded (not counted as proved)"
     runs.append(last)
+    if p.returncode == 2:
+        # undecided (time budget, harness build): a machinery problem, never a violation
+        sys.stderr.write("boundedcheck: %s could not decide: %s\n" % (b["name"], last.get("error", p.stdout[-300:])))
+        undecided = True
+        continue
     if p.returncode != 0:
         viol += 1
         rp = last.get("replay", "/verif/replay/%s/bounded_%s.txt" % (prop, b["name"]))
@@ -51,4 +57,4 @@ ev = {
 os.makedirs("/verif/evidence", exist_ok=True)
 json.dump(ev, open("/verif/evidence/%s.json" % prop, "w"), indent=1)
 print("%s %s: bounded stand-ins only, %d cases, %d violations; wall %.1fs" % (prop, tier, cases, viol, time.time() - t0))
-sys.exit(1 if viol else 0)
+sys.exit(1 if viol else (2 if undecided else 0))
